@@ -97,6 +97,13 @@ func (i *interpreter) callIntrinsic(fr *frame, fn *ssa.Function, args []value) (
 		}
 		panic(unsupported{"no body for synthetic function " + name})
 	}
+	if i.eng.isRepoPkg(pkg) {
+		// an instantiation of a generic function of the repository: interpreted like any other
+		pkg.Build()
+		if fn.Blocks != nil {
+			return nil, false
+		}
+	}
 	if interpretable[pkg.Pkg.Path()] {
 		pkg.Build()
 		if fn.Blocks == nil {
